@@ -1,7 +1,7 @@
 """Per-property obligation modules for Engine B."""
 import importlib
 
-PROPS = ["C01", "C02", "C03", "C06", "C07", "C08", "C09", "C12", "C16", "C05", "C11", "C13", "C17", "C19"]
+PROPS = ["C01", "C02", "C03", "C06", "C07", "C08", "C09", "C12", "C16", "C18", "C05", "C11", "C13", "C17", "C19"]
 
 
 def load(pid):
